@@ -274,6 +274,26 @@ SAFE_BUILTINS.update({n: v for n, v in vars(_builtins).items() if isinstance(v, 
 EXT_OK = ("re", "fractions", "itertools", "collections", "numbers", "operator", "functools", "math", "warnings", "json", "errno", "textwrap", "traceback", "io", "contextlib", "unicodedata", "string", "datetime", "ipaddress", "codecs")
 ERR_CLASSES = ("ValidationError", "SchemaError")
 
+
+class _OsPath:
+    """the pure, string-only part of os.path (nothing that looks at the file system, the environment or the working directory)"""
+    import os.path as _p
+    normpath, join, basename, dirname, split, splitext, isabs, normcase, sep = (
+        staticmethod(_p.normpath), staticmethod(_p.join), staticmethod(_p.basename), staticmethod(_p.dirname), staticmethod(_p.split),
+        staticmethod(_p.splitext), staticmethod(_p.isabs), staticmethod(_p.normcase), _p.sep)
+
+    def __getattr__(self, name):
+        raise Undecided("os.path.%s (touches the file system or the environment)" % name)
+
+
+class _OsStub:
+    """`os` as far as evaluated code may use it: os.path's string functions, os.sep, os.linesep"""
+    import os as _os
+    path, sep, linesep, pathsep, curdir, pardir = _OsPath(), _os.sep, _os.linesep, _os.pathsep, _os.curdir, _os.pardir
+
+    def __getattr__(self, name):
+        raise Undecided("os.%s" % name)
+
 HIER = {
     "KeyError": ("LookupError", "Exception"), "IndexError": ("LookupError", "Exception"), "LookupError": ("Exception",),
     "TypeError": ("Exception",), "ValueError": ("Exception",), "AttributeError": ("Exception",), "ZeroDivisionError": ("ArithmeticError", "Exception"),
@@ -842,6 +862,8 @@ class Ev:
                     if isinstance(self.ext[a.name], BaseException):
                         raise PyRaise("ImportError", "No module named %r" % a.name)
                     env[a.asname or top] = self.ext[a.name]
+                elif top == "os":
+                    env[a.asname or top] = _OsStub() if (a.name == "os" or not a.asname) else _OsStub().path
                 elif top in EXT_OK:
                     env[a.asname or top] = importlib.import_module(a.name if a.asname else top)
                 else:
@@ -960,6 +982,8 @@ class Ev:
                 o.attrs[t.attr] = v
             elif isinstance(o, ClsRef) and o.vals is not None:
                 o.vals[t.attr] = v
+            elif isinstance(o, (FuncRef, BoundMethod)) and t.attr in ("__name__", "__doc__", "__qualname__", "__module__"):
+                pass        # cosmetic attributes of a function object: nothing the evaluated code can branch on
             else:
                 raise Undecided("attribute store on %r" % type(o).__name__)
         else:
@@ -1026,6 +1050,11 @@ class Ev:
             return self.attr_evolve
         if isinstance(r, tuple) and r[0] == "ext" and r[1] == "attr":
             return _AttrModule(self)
+        if isinstance(r, tuple) and r[0] == "ext" and r[1].split(".")[0] == "os":
+            obj = _OsStub()
+            for part in r[1].split(".")[1:]:
+                obj = getattr(obj, part)
+            return obj
         if isinstance(r, tuple) and r[0] == "ext":
             top = r[1].split(".")[0]
             if top not in EXT_OK and not r[1].startswith("urllib.parse"):
